@@ -1,6 +1,6 @@
 SPECIFICATION Spec
 CONSTANTS
   Priors = {0, 2, 3, 5}
-  RichB = FALSE
+  RichB = "dicts"
 INVARIANTS InsidePath Frame
 CHECK_DEADLOCK FALSE
